@@ -30,7 +30,7 @@ WShb == Shb(FALSE, 1, <<O(4, 2, 0), O(3, 1, 0)>>)
 WShbBare == Shb(FALSE, 1, <<>>)
 WIdbA == Idb(1, 0, <<O(2, 3, 0), Res9>>)
 WIdbB == Idb(113, 4, <<O(1, 1, 0), O(11, 4, 0), O(12, 5, 0), Res9>>)
-WIdbC == Idb(1, 17, <<Res9>>)
+WIdbC == Idb(1, 17, <<O(3, 2, 0), Res9>>)
 \* empty comment + flags; no options, nothing captured; comment + hash + packet id + verdict; two comments, drop count, queue
 WEpb1 == Epb(0, 3, 5, 5, <<O(1, 0, 0), O(2, 4, 65601)>>)
 WEpb2 == Epb(1, 2, 0, 7, <<>>)
@@ -44,15 +44,17 @@ MC_HeadsW == {WShb}
 MC_AlphaW == {WIdbA, WIdbB, WEpb1, WEpb2, WEpb3, WEpb4, WDsb, WIsb}
 MC_AlphaW2 == {WIdbA, WIdbB, WIdbC, WEpb1, WEpb2, WEpb3, WEpb4, WEpb5, WDsb, WIsb, WNrb}
 MC_AlphaWSmall == {WIdbA, WIdbB, WEpb1, WEpb2, WEpb3}
+\* two interfaces of different link types with packets on both (what WantMixedLinkType / ErrorOnMismatchingLinkType are about)
+MC_AlphaMix == {WIdbA, WIdbB, WEpb1, WEpb2}
 
 (* ---------------- sections, byte orders, resolutions, block kinds ---------- *)
-BShb == Shb(TRUE, 1, <<O(1, 3, 0)>>)
+BShb == Shb(TRUE, 1, <<O(1, 3, 0), O(2, 2, 0)>>)
 VShb == Shb(FALSE, 2, <<O(2, 2, 0)>>)                      \* unknown major version
 VShbBE == Shb(TRUE, 2, <<>>)
 SIdbMicro == Idb(1, 0, <<>>)                                 \* default resolution 10^-6
 SIdbOff == Idb(1, 0, <<O(14, 8, 5), O(9, 1, 3)>>)            \* milliseconds, offset 5 s
 SIdbBin == Idb(113, 3, <<O(9, 1, 138), O(2, 2, 0)>>)         \* 2^-10, snap length 3
-SIdbPico == Idb(113, 0, <<O(9, 1, 12)>>)                     \* 10^-12
+SIdbPico == Idb(113, 0, <<O(8, 8, 0), O(9, 1, 12)>>)          \* 10^-12 (and an option the reader ignores)
 SIdbBin30 == Idb(1, 0, <<O(9, 1, 158)>>)                     \* 2^-30: the fraction exceeds 10^9 - 1
 SEpbHi == Epb(0, 5, 2, 2, <<>>)
 SEpbMax == Epb(1, 6, 1, 9, <<O(1, 2, 0)>>)
@@ -60,9 +62,10 @@ SEpbLo == Epb(0, 7, 4, 4, <<O(2, 4, 64512 + 3)>>)            \* flags with the b
 SPb == Pb(0, 2, 3, 3, <<O(1, 1, 0)>>)
 SSpb == Spb(5, 5)
 SUnk == Unk(2989, 6)
+SIsb == Isb(1, 5, <<O(1, 2, 0), O(6, 8, 1)>>)                \* statistics of the second interface: comment, an option the reader ignores
 MC_HeadsS == {WShbBare, BShb, VShb}
 MC_AlphaS == {WShbBare, BShb, VShb, SIdbMicro, SIdbBin, SEpbHi, SEpbMax, SSpb, WIsb}
-MC_AlphaS2 == {WShbBare, BShb, VShbBE, SIdbOff, SIdbPico, SIdbBin30, WIdbB, SEpbLo, SEpbMax, SPb, SSpb, SUnk, WDsb, WNrb}
+MC_AlphaS2 == {WShbBare, BShb, VShbBE, SIdbOff, SIdbPico, SIdbBin30, WIdbB, SEpbLo, SEpbMax, SPb, SSpb, SUnk, SIsb, WDsb, WNrb}
 MC_AlphaSSmall == {BShb, VShb, SIdbMicro, SIdbBin, SEpbHi, SEpbMax, SSpb}
 
 (* ------------------------ corruptions (C15 envelope) ----------------------- *)
@@ -93,15 +96,22 @@ HEpbLenHuge == [WEpb2 EXCEPT !.al = -16]                    \* 0xfffffff0: beyon
 HUnkLenZero == [SUnk EXCEPT !.al = 0]
 HSpbShort == Spb(9, 2)                                      \* original length beyond the block
 HDsbLen == Dsb(400, 4)
-HNrbBad == Nrb(<<Rec(1, 8, 4, 4), Rec(9, 3, 0, 3), Rec(3, 10, 6, 4), EndRec>>)
+HNrbBad == Nrb(<<Rec(1, 8, 4, 4), Rec(9, 3, 0, 3), Rec(3, 10, 6, 4), Rec(4, 12, 8, 4), EndRec>>)
+HNrbNoEnd == Nrb(<<Rec(2, 19, 16, 3)>>)                     \* no end record: the trailing length is read as a record
 HIsbIfc == Isb(3, 3, <<>>)
 HIsbShort == Isb(0, 3, <<O(4, 4, 1)>>)
 MC_HeadsH == {WShbBare, HShbBadMagic, HShbShort, WIdbA}
+MC_HeadsOne == {WShbBare}
 MC_AlphaH1 == {WIdbA, HIdbTsresol255, HIdbTsresolEmpty, HIdbEooLen, HEpbIfc, HEpbCapLen, HEpbCapBlock, HEpbFlagsShort, HEpbLenMinus, HEpbLenPlus,
                HEpbLenTiny, WEpb1}
 MC_AlphaH2 == {WIdbA, WIdbB, HIdbTsresol20, HIdbFilterEmpty, HIdbTsoffShort, HIdbNoEoo, HEpbIfcHuge, HEpbCapHuge, HEpbHashEmpty, HEpbPidShort, HEpbTrail,
-               HEpbLenOdd, HEpbLenHuge, HUnkLenZero, HSpbShort, HDsbLen, HNrbBad, HIsbIfc, HIsbShort, WEpb3, HShbBadMagic}
+               HEpbLenOdd, HEpbLenHuge, HUnkLenZero, HSpbShort, HDsbLen, HNrbBad, HNrbNoEnd, HIsbIfc, HIsbShort, WEpb3, HShbBadMagic}
 MC_AlphaHSmall == {WIdbA, HIdbTsresol255, HEpbIfc, HEpbCapLen, HEpbFlagsShort, HEpbLenMinus, HEpbLenPlus, WEpb1}
+
+\* simulation beyond the exhaustive bounds: mostly valid blocks of every kind, both byte orders, a few corruptions
+MC_HeadsSim == {WShb, WShbBare, BShb}
+MC_AlphaSim == {WIdbA, WIdbB, WIdbC, SIdbOff, SIdbBin, SIdbMicro, WEpb1, WEpb2, WEpb3, WEpb4, WEpb5, SEpbHi, SEpbMax, SEpbLo, SPb, SSpb, WIsb, WDsb, WNrb,
+                SUnk, SIsb, BShb, WShbBare, VShb, HEpbLenPlus, HEpbTrail, HIdbNoEoo, HEpbCapLen, HNrbBad}
 
 (* -------------------- the zero-copy buffer and the growing read ------------- *)
 GIdb0 == Idb(1, 0, <<Res9>>)
@@ -123,10 +133,12 @@ CfgOf(n) == [mixed |-> Bit(n, 0), errmis |-> Bit(n, 1), skipver |-> Bit(n, 2), z
 MC_CfgsQuick == {CfgOf((Seed + 0) % 16), CfgOf((Seed + 5) % 16), CfgOf((Seed + 10) % 16), CfgOf((Seed + 15) % 16)}
 MC_CfgsPair == {CfgOf(Seed % 16), CfgOf(15 - (Seed % 16))}
 MC_CfgsReads == {CfgOf(1), CfgOf(9)}                                        \* mixed: copying and zero-copy
+MC_CfgsMix == {CfgOf(1), CfgOf(9), CfgOf(0), CfgOf(2)}                       \* mixed copying / zero-copy, skipping, error on mismatch
 MC_CfgsPlain == {CfgOf(0), CfgOf(8), CfgOf(1), CfgOf(9)}
 
 MC_CutsNone == {}
 MC_CutsFew == {1, 9}
 MC_CutsMore == {1, 4, 8, 9, 12, 13, 20, 21, 28, 29}
 MC_CutsAll == {-1}
+MC_CutsOff == {-2}
 =============================================================================
